@@ -105,6 +105,27 @@ def run(ctx):
                       dict(suite="lifecycle", theorem="%s (Model/Lifecycle.v no longer matches journal/lifecycle.py)" % LC_THEOREMS,
                            sequences_disagreeing=len(bad), case=metas[bad[0]], coq_expr=exprs[bad[0]][:3000]),
                       found_input=False)
+    # ---- DBOS decorator: idle periods re-armed from inside (waiter timeout), then work arriving from outside
+    rngd = random.Random(ctx.seed * 23 + 11)
+    nre, rfails, busy_at_old_timer = ctx.n(8, 120), [], 0
+    for k in range(nre):
+        tau = rngd.choice([0.5, 1.0, 2.0])
+        T = tau * rngd.choice([0.25, 0.5, 0.75])
+        send_after = rngd.choice([0.0, 0.125, 0.25, tau / 2])
+        dur = tau * rngd.choice([0.5, 2.0, 3.0])
+        o = L.drive_decorator_rearm(os.path.join(d, "r%d.db" % (k % 4)), tau, T, send_after, dur, tau + 1.0)
+        ctx.count(1, ("dbos-rearm", tau, T, send_after, dur, len(o["attempts"]), tuple(k for k, _ in o["bodies"])))
+        ctx.programs += 1
+        if len(o["idle_marks"]) >= 2 and send_after < tau and dur > tau:
+            busy_at_old_timer += 1      # the job is still running when the timers of the first two idle marks would be due
+        for w in L.monitor_rearm(o, tau, dur):
+            rfails.append(dict(why=w, idle_timeout=tau, wait_timeout=T, send_after=send_after, dur=dur, observed=o))
+    ctx.suite("dbos-decorator-rearm", runs=nre, busy_when_earlier_timers_due=busy_at_old_timer, failures=len(rfails))
+    ctx.require_coverage("dbos-decorator-rearm", "busy_when_earlier_timers_due", busy_at_old_timer, 2)
+    for f in rfails[:2]:
+        ctx.violation("C26 fails on the real DBOSIdleReleaseDecorator: %s" % f["why"],
+                      dict(kind="implementation-monitor/dbos-decorator", input=f,
+                           replay_hint="suites.lifecycle.drive_decorator_rearm(path, idle_timeout, wait_timeout, send_after, dur, tail)"))
     ctx.partial.append("PARTIAL (DBOS): one_owner / crash-timeout theorems are about the lifecycle lock (tied to the real "
                        "SqliteRunLifecycleLock); PostgresRunLifecycleLock is modelled by the same CAS steps but not executed; "
                        "the decorator's use of the lock (check-then-send window between try_begin_resume and the send) and "
